@@ -12,6 +12,7 @@ Driver handlers for C18. Requests (all `key=value` tokens after the wrapper name
   ↦ `calls=<page:size,…> out=<OK:…|ERR:Kind:tag|EXH>`
 * `TIMEOUT lim=<ms> el=<ms> r=<ok|Kind>` ↦ `OK:0 | ERR:Kind:tag`
 * `IOBATCH max= init= cap= mult= n=<items> s=<script>` ↦ `calls=<item,…> sl=<…> out=<OK:…|ERR:…|EXH>`
+* `TIMING near=<n> reruns=<r> lost=<l>` ↦ `allowed=<max 2 (n/10)> verdict=<ok|exceeded>`
 -/
 namespace IB.D18
 open IB.Wire IB.Cloud
@@ -65,6 +66,20 @@ def retryCfg? (args : List String) : Option (Option RetryConfig) := do
 def retryAnswer (r : RetryResult Nat) : String :=
   s!"n={r.attempts} out={outStr r.outcome} sl={nats r.sleeps}"
 
+/-- the harness builds `OperationBuilder::new()`, then `.with_retry(c)` iff a retry configuration is given,
+    then `.with_timeout(t)` iff a limit is given -/
+def mkBuilder (rc : Option RetryConfig) (lim : Option Nat) : OperationBuilder :=
+  let b := OperationBuilder.new
+  let b := match rc with | some c => b.withRetry c | none => b
+  match lim with | some t => b.withTimeout t | none => b
+
+def mkExecutor (rc : Option RetryConfig) (lim : Option Nat) : CloudIOExecutor :=
+  let b := CloudIOExecutor.new
+  let b := match rc with | some c => b.withRetry c | none => b
+  match lim with | some t => b.withTimeout t | none => b
+
+/-- every wrapper token is answered by the model definition of THAT wrapper (`Model/Cloud.lean`, last
+    section); the retry-only forms go through `runWrapper`, the function `wrapper_eq_retry` is about -/
 def handleRetry : List String → String
   | w :: args =>
     match retryCfg? args, (kv? "lim" args).bind optNat?, (kv? "d" args).bind parseNat?,
@@ -72,13 +87,15 @@ def handleRetry : List String → String
     | some rc, some lim, some d, some script =>
       let durs := List.replicate script.length d
       match w, rc, lim with
-      | "raw", some c, none => retryAnswer (retry c script)
-      | "run", some c, none => retryAnswer (retry c script)
-      | "cio", some c, none => retryAnswer (retry c script)
+      | "raw", some c, none => retryAnswer (runWrapper .raw c script)
+      | "run", some c, none => retryAnswer (runWrapper .run c script)
+      | "cio", some c, none => retryAnswer (runWrapper .cio c script)
       | "tr", some c, some t => retryAnswer (runWithTimeoutAndRetry c t script durs)
-      | "ciotr", some c, some t => retryAnswer (runWithTimeoutAndRetry c t script durs)
-      | "bld", rc, lim => retryAnswer (execute rc lim script durs)
-      | "exe", rc, lim => retryAnswer (execute rc lim script durs)
+      | "ciotr", some c, some t => retryAnswer (runCloudIoWithRetryAndTimeout c t script durs)
+      | "bld", some c, none => retryAnswer (runWrapper .bld c script)
+      | "exe", some c, none => retryAnswer (runWrapper .exe c script)
+      | "bld", rc, lim => retryAnswer ((mkBuilder rc lim).execute script durs)
+      | "exe", rc, lim => retryAnswer ((mkExecutor rc lim).execute script durs)
       | _, _, _ => "BAD-OP"
     | _, _, _, _ => "BAD-OP"
   | _ => "BAD-OP"
@@ -105,7 +122,8 @@ def handleBatch : List String → String
     | some n, some size, some fs =>
       if !(w == "raw" || w == "run") || !procScriptOk fs then "BAD-OP"
       else
-        let r := batchInChunks (List.range n) size (procOf fs)
+        let r := if w == "raw" then batchInChunks (List.range n) size (procOf fs)
+                 else runBatchOperation (List.range n) ⟨size, false⟩ (procOf fs)
         let calls := joinOr "|" (r.1.map nats)
         s!"calls={calls} res={listResStr (some r.2)}"
     | _, _, _ => "BAD-OP"
@@ -140,7 +158,9 @@ def handlePage : List String → String
     | some ps, some mx, some script =>
       if !(w == "raw" || w == "run" || w == "cio") then "BAD-OP"
       else
-        let r := paginate ⟨ps, mx⟩ script
+        let r := if w == "raw" then paginate ⟨ps, mx⟩ script
+                 else if w == "run" then runPaginatedOperation ⟨ps, mx⟩ script
+                 else runCloudIoPaginated ⟨ps, mx⟩ script
         let calls := joinOr "," (r.calls.map (fun p => s!"{p.1}:{p.2}"))
         s!"calls={calls} out={listResStr r.outcome}"
     | _, _, _ => "BAD-OP"
@@ -162,8 +182,18 @@ def handleIoBatch (args : List String) : String :=
     s!"calls={nats r.calls} sl={nats r.sleeps} out={listResStr r.outcome}"
   | _, _, _ => "BAD-OP"
 
+/-- Bound on the timed cases of a run that could not be compared with the model (see
+    `harness/src/c18.rs::check_timing_skip_rate`): at most `max 2 (near / 10)`. Pure arithmetic on the three
+    counts the harness reports; it is a case so that the bound and its verdict are part of the compared stream. -/
+def handleTiming (args : List String) : String :=
+  match (kv? "near" args).bind parseNat?, (kv? "reruns" args).bind parseNat?, (kv? "lost" args).bind parseNat? with
+  | some near, some _, some lost =>
+    let allowed := max 2 (near / 10)
+    s!"allowed={allowed} verdict={if lost > allowed then "exceeded" else "ok"}"
+  | _, _, _ => "BAD-OP"
+
 def handlers : List (String × (List String → String)) :=
   [("RETRY", handleRetry), ("BATCH", handleBatch), ("PAGE", handlePage), ("TIMEOUT", handleTimeout),
-   ("IOBATCH", handleIoBatch)]
+   ("IOBATCH", handleIoBatch), ("TIMING", handleTiming)]
 
 end IB.D18
